@@ -110,7 +110,26 @@ def window_positions(st, xs):
 def _oracle(case, r):
     if 'harness_exc' in r:
         return 'real code raised: ' + r['harness_exc']
-    if r.get('raised') or muxprop.has_fatal(r['chunks']) or case['kind'] != 'mux':
+    if r.get('raised') or muxprop.has_fatal(r['chunks']):
+        return None
+    if case['kind'] == 'plain':
+        # on an ordinary observable too: what item i determines is emitted while item i is processed (the list semantics of the
+        # pipeline, item by item), the rest at completion
+        try:
+            ch, fin = pyref.ref_pipe_plain(case['term'], [dec(x) for x in case['items']])
+        except pyref.NotCovered:
+            return None
+        except Exception:
+            return None
+        want = pyref.enc_chunks(ch, fin)
+        got = r['chunks'][1:]
+        if muxprop.strict_ne(got, want):
+            for i, (a, b) in enumerate(zip(got, want)):
+                if muxprop.strict_ne(a, b):
+                    return ('plain %s over %s: while item %d is processed the operator emits %s, the list semantics emit %s (completion chunk '
+                            'last)' % (case['term'], case['items'], i, str(a)[:200], str(b)[:200]))
+        return None
+    if case['kind'] != 'mux':
         return None
     t = case['term']
     xs = [dec(x) for x in case['items']]
@@ -178,7 +197,7 @@ tags = muxprop.tags
 
 
 def violation_class(case, text):
-    return [s[0] for s in case['term']][0]
+    return ([s[0] for s in case['term']] or ['empty'])[0]
 
 
 def cases(tier, rng):
